@@ -112,10 +112,14 @@ def inductive_step(pre: List[int], a: int, n_cs: int, n_fail: int, n_unfixed: in
 
 
 class _Cm:
-    def __init__(self, i, log, adds_dep, n_cs):
+    def __init__(self, i, log, adds_dep, n_cs, sast=False):
+        from codemodder.codetf import DetectionTool
+
         self.id, self.log, self.adds_dep, self.n_cs = IDS[i], log, adds_dep, n_cs
         self.summary, self.description, self.references = "s", "d", []
-        self.detection_tool, self.detection_tool_rules = None, []
+        # a tool-driven (SAST) codemod carries a detection tool; execution order must not depend on it
+        self.detection_tool, self.detection_tool_rules = (DetectionTool(name="Sonar") if sast else None), []
+        self.origin = "sonar" if sast else "pixee"
 
     def apply(self, context):
         self.log.append(("apply", self.id))
@@ -127,7 +131,7 @@ class _Cm:
         context.process_results(self.id, iter([fc]))
 
 
-def _batch(sel: List[int], deps: List[bool], ncs: List[int]):
+def _batch(sel: List[int], deps: List[bool], ncs: List[int], sast=(False, False, False)):
     log = []
     ctx = _ctx()
     ctx.__dict__["files_to_analyze"] = [Path("/d/x.py")]
@@ -143,13 +147,13 @@ def _batch(sel: List[int], deps: List[bool], ncs: List[int]):
         package_stores = []
 
     ctx.repo_manager = RM()
-    cms = [_Cm(i, log, deps[i], ncs[i]) for i in sel]
+    cms = [_Cm(i, log, deps[i], ncs[i], sast[i]) for i in sel]
     cmod.apply_codemods(ctx, cms)
     return ctx, cms, log
 
 
-def batch_equals_sequential(p: int, n: int, d0: bool, d1: bool, d2: bool, c0: int, c1: int, c2: int) -> bool:
-    """codemodder.apply_codemods over n <= 3 distinct codemods in an arbitrary order: each codemod's apply is
+def batch_equals_sequential(p: int, n: int, d0: bool, d1: bool, d2: bool, c0: int, c1: int, c2: int, s0: bool, s1: bool) -> bool:
+    """codemodder.apply_codemods over n <= 3 distinct codemods (find-and-fix or tool-driven, symbolic) in an arbitrary order: each codemod's apply is
     followed by its own dependency processing, strictly in list order; the per-codemod results compiled from the
     batch context equal those compiled from a fresh context that ran that codemod alone.
     pre: 1 <= n <= 3 and 0 <= c0 <= 1 and 0 <= c1 <= 1 and 0 <= c2 <= 1
@@ -159,7 +163,8 @@ def batch_equals_sequential(p: int, n: int, d0: bool, d1: bool, d2: bool, c0: in
 
     sel = perm(p)[:n]
     deps, ncs = [d0, d1, d2], [c0, c1, c2]
-    ctx, cms, log = _batch(sel, deps, ncs)
+    sast = (s0, s1, False)
+    ctx, cms, log = _batch(sel, deps, ncs, sast)
     exp_log = []
     for i in sel:
         exp_log += [("apply", IDS[i]), ("deps", IDS[i])]
@@ -167,7 +172,7 @@ def batch_equals_sequential(p: int, n: int, d0: bool, d1: bool, d2: bool, c0: in
     batch = ctx.compile_results(cms)
     ok = ok and [r.codemod for r in batch] == [IDS[i] for i in sel]
     for r, i in zip(batch, sel):
-        sctx, scms, _ = _batch([i], deps, ncs)
+        sctx, scms, _ = _batch([i], deps, ncs, sast)
         (single,) = sctx.compile_results(scms)
         ok = ok and [c.path for c in r.changeset] == [c.path for c in single.changeset] and r.failedFiles == single.failedFiles and r.description == single.description
         ok = ok and (ctx._dependency_update_by_codemod.get(IDS[i]) == sctx._dependency_update_by_codemod.get(IDS[i]))
@@ -175,12 +180,18 @@ def batch_equals_sequential(p: int, n: int, d0: bool, d1: bool, d2: bool, c0: in
 
 
 def shared_manifest(same_dep: bool, declared: bool, swap: bool) -> bool:
+    """Two codemods of one run sharing the run's parsed manifest end up exactly as after one-at-a-time runs with a
+    re-parse in between (see _shared_manifest).
+    post: _
+    """
+    return fin(_shared_manifest(same_dep, declared, swap))
+
+
+def _shared_manifest(same_dep, declared, swap):
     """Two codemods of one run that need a package (the same one or different ones) and share the run's parsed
     manifest (real PackageStore, real DependencyManager / RequirementsTxtWriter over an in-memory file): the
     manifest ends up exactly as after running them one at a time with a re-parse in between - each needed package
-    listed once - and each codemod reports the same number of manifest changesets as in its own run.
-    post: _
-    """
+    listed once - and each codemod reports the same number of manifest changesets as in its own run."""
     import codemodder.dependency_management.requirements_txt_writer as rw
     from codemodder.project_analysis.file_parsers.package_store import FileType, PackageStore
     from vlib.stubs import FakeFS
@@ -231,7 +242,7 @@ def shared_manifest(same_dep: bool, declared: bool, swap: bool) -> bool:
     ok = fs_b.files[path] == fs_s.files[path] and batch == seq
     for dep in needs:
         ok = ok and final.count(str(dep.requirement)) == 1
-    return fin(ok)
+    return ok
 
 
 def planted_cross_talk(a: int, b: int) -> bool:
@@ -245,7 +256,7 @@ def planted_cross_talk(a: int, b: int) -> bool:
 
 def warmup():
     inductive_step([0, 1, 0], 1, 2, 1, 1, True)
-    batch_equals_sequential(3, 3, True, False, True, 1, 0, 1)
+    batch_equals_sequential(3, 3, True, False, True, 1, 0, 1, False, True)
     shared_manifest(True, False, False)
     shared_manifest(False, True, True)
 
